@@ -9,6 +9,8 @@ import (
 type CommitteeIndices []ValidatorIndex
 
 func (p *CommitteeIndices) Deserialize(spec *Spec, dr *codec.DecodingReader) error {
+	// decode into a recycled object: drop what it holds (dr.List appends)
+	*p = (*p)[:0]
 	return dr.List(func() codec.Deserializable {
 		i := len(*p)
 		*p = append(*p, ValidatorIndex(0))
@@ -43,6 +45,8 @@ func (c *Phase0Preset) CommitteeIndices() ListTypeDef {
 type SlotCommitteeIndices []ValidatorIndex
 
 func (p *SlotCommitteeIndices) Deserialize(spec *Spec, dr *codec.DecodingReader) error {
+	// decode into a recycled object: drop what it holds (dr.List appends)
+	*p = (*p)[:0]
 	return dr.List(func() codec.Deserializable {
 		i := len(*p)
 		*p = append(*p, ValidatorIndex(0))
